@@ -54,7 +54,7 @@ tabs = getattr(ck, "c15_tables", {})
 for nm in ("best.direct", "bn.direct", "bnp.dispatch.false"):
     if nm in tabs and 5 in tabs[nm]:
         samples.append({"network": nm, "n": 5, "comparators": tabs[nm][5]})
-samples.append({"api_surface": "iterator kinds: T*, std::reverse_iterator<T*>, std::deque<T>::iterator across a block boundary, std::vector<T>::iterator (dispatch + direct, guard cells around the range); comparators: std::less, std::greater, key-only order on (key,id), default arguments, move-sensitive rank table; CS_IfSwap objects built from a temporary / a by-value argument and used after that comparator died (member + heap)"})
+samples.append({"api_surface": "iterator kinds: T*, std::reverse_iterator<T*>, std::deque<T>::iterator across a block boundary, std::vector<T>::iterator (dispatch + direct, guard cells around the range); comparators: std::less, std::greater, key-only order on (key,id), default arguments, move-sensitive rank table, two objects of one comparator type (function pointers asc/desc, rank tables asc/desc) through the same entry point in turn; CS_IfSwap objects built from a temporary / a by-value argument and used after that comparator died (member + heap)"})
 samples.append({"input_family": "all 2^n zero-one vectors, n=0..16, through 3 families x {direct, dispatch} x {less, greater, key-only order on (key,id)}"})
 ck.finish({
     "evaluations": int(stats.get("evaluations", 0)),
